@@ -27,9 +27,8 @@ def cleanup(c, wt):
     for d in os.listdir(c.TARGET):
         if d.endswith(tag):
             shutil.rmtree(os.path.join(c.TARGET, d), ignore_errors=True)
-    sys.path.insert(0, c.SIM)
-    import gen_shadow
-    gen_shadow.generate('/repo', os.path.join(c.SIM, 'shadow'), c.SIM)
+    shutil.rmtree(os.path.join(c.SIM, 'scratch' + tag), ignore_errors=True)
+    shutil.rmtree(os.path.join(c.OUT, 'scratch' + tag), ignore_errors=True)
 
 
 def mutant(c, args):
